@@ -75,7 +75,7 @@ async def run_ops(seed, n, max_zones):
     rng = random.Random(seed)
     gwy = await gw.make_gateway([], None, max_zones=max_zones)
     dev = {k: gwy.get_device(v[0]) for k, v in DEVS.items()}
-    ops, rows = [], []
+    ops, rows, stray = [], [], []
     for _ in range(n):
         if rng.random() < 0.15:
             c, i = rng.choice(list(CTLS)), rng.choice([0, 1, 2, 11, 12, 15, 16])
@@ -132,8 +132,14 @@ async def run_ops(seed, n, max_zones):
             row.append([c, 99, int(dh is not None)] + [0 if y is None else dev_no(y) for y in parts]
                        + [0 if tcs.appliance_control is None else dev_no(tcs.appliance_control)])
         rows.append(row)
+        for c in sorted(CTLS):
+            tcs = dev[c].tcs
+            for par in [tcs] + list(tcs.zones) + ([tcs.dhw] if tcs.dhw else []):
+                for ch in par.childs:
+                    if getattr(ch, "_parent", None) is not par:
+                        stray.append((len(rows) - 1, f"{ch.id} is listed in {par}.childs but its own parent is {getattr(ch, '_parent', None)}"))
     await gwy.stop()
-    return ops, rows
+    return ops, rows, stray
 
 
 def correspondence(ctx: Ctx, built: bool, thorough: bool):
@@ -142,8 +148,11 @@ def correspondence(ctx: Ctx, built: bool, thorough: bool):
     for k in range(nseq):
         seed = ctx.rng.randrange(10**9)
         mz = [12, 12, 4, 16, 1, 13][k % 6]
-        (ops, rows), _ = gw.run_async(run_ops, seed, 25, mz)
+        (ops, rows, stray), _ = gw.run_async(run_ops, seed, 25, mz)
         cases.append((mz, ops, rows))
+        for k, what in stray[:1]:
+            ctx.violation("child-listed-by-a-parent-that-is-not-its-parent:set_parent", f"after request {ops[k]} (outcome {rows[k][0][0]}): {what}",
+                          {"max_zones": mz, "ops": ops[:k + 1]}, "operation-sequence")
         ctx.case(("topology-ops", mz, tuple(ops)), True, "set_parent-sequence")
         # the property itself on the implementation: nothing that was placed is ever moved or replaced
         nd = 1 + len(DEVS)
@@ -234,6 +243,11 @@ def graph_walk(gwy, max_zones):
                 seen_act[a.id] = (tcs.id, z.idx)
             if len(set(id(a) for a in z.actuators)) != len(z.actuators):
                 bad.append(("actuator-listed-twice", f"{tcs.id}/{z.idx}"))
+    parents = [t for t in gwy.systems] + [z for t in gwy.systems for z in t.zones] + [t.dhw for t in gwy.systems if t.dhw]
+    for par in parents:
+        for ch in getattr(par, "childs", []):
+            if getattr(ch, "_parent", None) is not par:
+                bad.append(("child-listed-by-a-parent-that-is-not-its-parent", f"{getattr(ch, 'id', ch)} is in {par}.childs, its own parent is {getattr(ch, '_parent', None)}"))
     for d in gwy.devices:
         p = getattr(d, "_parent", None)
         ctl = getattr(d, "ctl", None)
@@ -408,11 +422,19 @@ def run(ctx: Ctx) -> None:
     # the witness of the max_zones finding, and each recorded system verbatim
     hists.append((["2026-01-01T12:00:00.000000 045 RP --- 01:145038 18:111111 --:------ 0005 004 0008FF1F",
                    "2026-01-01T12:00:01.000000 045  I --- 01:145038 --:------ 01:145038 30C9 003 0007D0"], "crafted-13-zones", "crafted", {}))
+    t0 = "2026-01-01T12:00:"
+    hists.append(([f"{t0}00.000000 045 RP --- 01:145038 18:111111 --:------ 0005 004 00080A00",
+                   f"{t0}01.000000 045 RP --- 01:145038 18:111111 --:------ 000C 006 000F00340457",     # appliance control: 13:001111
+                   f"{t0}02.000000 045 RP --- 01:145038 18:111111 --:------ 000C 006 000F003408AE",     # ... now said to be 13:002222: refused
+                   f"{t0}03.000000 045 RP --- 01:145038 18:111111 --:------ 000C 006 010400880457",     # zone 01 sensor: 34:001111
+                   f"{t0}04.000000 045 RP --- 01:145038 18:111111 --:------ 000C 006 0104008808AE",     # ... now said to be 34:002222: refused
+                   f"{t0}05.000000 045 RP --- 01:145038 18:111111 --:------ 000C 006 0304008808AE",     # 34:002222 is zone 03's sensor
+                   f"{t0}06.000000 045  I --- 01:145038 --:------ 01:145038 30C9 003 0107D0"], "crafted-role-conflicts", "crafted", {}))
     hists += [(base, "verbatim", name, cfg) for name, base, cfg in syss]
     for lines, kind, name, cfg in hists:
-        eav = rng.random() < 0.5 if kind not in ("crafted-13-zones",) else False
-        mz = 16 if kind == "crafted-13-zones" else rng.choice([12, 12, 12, 16, 13, 8, 4, 1, rng.randint(1, 16)])
-        chunks = 1 if kind in ("crafted-13-zones",) else rng.choice([1, 1, 4, 8])
+        eav = rng.random() < 0.5 if not kind.startswith("crafted") else False
+        mz = 16 if kind == "crafted-13-zones" else 12 if kind.startswith("crafted") else rng.choice([12, 12, 12, 16, 13, 8, 4, 1, rng.randint(1, 16)])
+        chunks = 1 if kind.startswith("crafted") else rng.choice([1, 1, 4, 8])
         try:
             bad, _ = gw.run_async(history_trial, lines, cfg, eav, mz, chunks)
         except Exception as err:  # noqa: BLE001
